@@ -70,7 +70,7 @@ func (r *Run) Report(v *Violation) {
 	}
 	r.seenCls[v.Class] = true
 	v.Seed = r.Seed
-	dir := filepath.Join(r.Env.Verif, "replays", v.Prop)
+	dir := filepath.Join(outRoot(), "replays", v.Prop)
 	os.MkdirAll(dir, 0o755)
 	path := filepath.Join(dir, fmt.Sprintf("%d-%s.json", r.Seed, shortHash(v.Class)))
 	raw, _ := json.MarshalIndent(v, "", " ")
@@ -178,9 +178,18 @@ func (r *Run) WriteEvidence(cov map[string]any, extra map[string]any, assumption
 	if err != nil {
 		return machinery("evidence: %v", err)
 	}
-	dir := filepath.Join(r.Env.Verif, "evidence")
+	dir := filepath.Join(outRoot(), "evidence")
 	os.MkdirAll(dir, 0o755)
 	return os.WriteFile(filepath.Join(dir, r.Prop+".json"), raw, 0o644)
+}
+
+// outRoot is where evidence and replay files go (VERIF_OUT redirects them
+// for self-tests that run checks against scratch copies).
+func outRoot() string {
+	if v := os.Getenv("VERIF_OUT"); v != "" {
+		return v
+	}
+	return verifRoot()
 }
 
 // ---------------------------------------------------------------- misc
